@@ -301,9 +301,38 @@ def normals_lemma(rep, timeout):
     for k in range(3):
         obs.append(oblig.Ob("PG normal x true normal [%d]" % k, lhs=cr[k], rhs=ZERO, assume=adm,
                             meta={"family": "Prandtl-Glauert-scaled normals are parallel to the normals of the stretched geometry"}))
-    obs.append(oblig.Ob("PG normal . true normal > 0", cond=le(sum((nt[k] * n1[k] for k in range(3)), ZERO), 0), assume=adm + [ne(n0[0] * n0[0] + n0[1] * n0[1] + n0[2] * n0[2], 0)],
+    # orientation: decomposed.  (H) hypotheses proved on the real VLMGeometry output and the rotation, (P) the positivity
+    # that follows from them, proved over fresh reals standing for the quantities the hypotheses tie together.
+    d1 = [m[0, 1, k] - m[1, 0, k] for k in range(3)]
+    d2 = [m[0, 0, k] - m[1, 1, k] for k in range(3)]
+    crs = lambda u, w: [u[1] * w[2] - u[2] * w[1], u[2] * w[0] - u[0] * w[2], u[0] * w[1] - u[1] * w[0]]
+    c = crs(d1, d2)
+    d1t = [mt[0, 1, k] - mt[1, 0, k] for k in range(3)]
+    d2t = [mt[0, 0, k] - mt[1, 1, k] for k in range(3)]
+    ct = crs(d1t, d2t)
+    cc = sum((x * x for x in c), ZERO)
+    cct = sum((x * x for x in ct), ZERO)
+    Tc = matvec(T, c)
+    W = [B * Tc[0], Tc[1], Tc[2]]
+    nz = [ne(cc, 0)]
+    for k in range(3):
+        obs.append(oblig.Ob("H1 n[%d] |c| == c[%d]" % (k, k), lhs=n0[k] * sqrt(cc), rhs=c[k], assume=adm + nz,
+                            meta={"family": "VLMGeometry normal is the normalised cross product of the panel diagonals"}))
+        obs.append(oblig.Ob("H2 n'[%d] |c'| == c'[%d]" % (k, k), lhs=n1[k] * sqrt(cct), rhs=ct[k], assume=adm + [ne(cct, 0)],
+                            meta={"family": "VLMGeometry normal is the normalised cross product of the panel diagonals"}))
+        obs.append(oblig.Ob("H3 c'[%d] == B W[%d]" % (k, k), lhs=ct[k], rhs=B * W[k], assume=adm,
+                            meta={"family": "cross product of the rotated and stretched diagonals is B (B (Tc)_x, (Tc)_y, (Tc)_z)"}))
+    obs.append(oblig.Ob("H4 |Tc|^2 == |c|^2", lhs=sum((x * x for x in Tc), ZERO), rhs=cc, meta={"family": "wind-frame rotation preserves length"}))
+    # (P): fresh reals y = Tc, N0 = |c|, N1 = |c'|, b = B
+    y = symarray("y", (3,))
+    N0, N1, bb = var("N0"), var("N1"), var("b")
+    Wv = [bb * y[0], y[1], y[2]]
+    nt_v = [bb * (y[0] / N0), y[1] / N0, y[2] / N0]  # (B,1,1) o T (c / N0)
+    n1_v = [bb * Wv[k] / N1 for k in range(3)]  # c' / N1 with c' = B W
+    obs.append(oblig.Ob("P  H1-H4 imply PG normal . true normal > 0", cond=le(sum((nt_v[k] * n1_v[k] for k in range(3)), ZERO), 0),
+                        assume=[gt(N0, 0), gt(N1, 0), gt(bb, 0), gt(y[0] * y[0] + y[1] * y[1] + y[2] * y[2], 0)],
                         meta={"family": "Prandtl-Glauert-scaled normals point the same way as the normals of the stretched geometry"}))
-    run_obligations(rep, "PG normals vs stretched-geometry normals (one panel)", obs, timeout, levels=(2,), relate=[], family=lambda ob: "PG frame: " + ob.meta["family"],
+    run_obligations(rep, "PG normals vs stretched-geometry normals (one panel)", obs, timeout, levels=(1, 2), family=lambda ob: "PG frame: " + ob.meta["family"],
                     fixed={"M": 0.5})
 
 
